@@ -9,6 +9,7 @@ package main
 // /proc/self/fd before and after the last release, every release returns nil.
 
 import (
+	"encoding/binary"
 	"fmt"
 	"os"
 	"path/filepath"
@@ -71,6 +72,9 @@ func refHistories(r *RunCtx) {
 		return
 	}
 
+	if c.Prob(1, 4, "ref.damaged") {
+		w.openDamagedFiles(mem)
+	}
 	opened := w.PersistOpen(mem)
 	ps, ok := opened.Seg.(*zap.Segment)
 	if !ok {
@@ -248,6 +252,7 @@ func refHistories(r *RunCtx) {
 		zap.VerifYield = nil
 		released = true
 		r.countN("sim.steps", sim.steps)
+		r.countN("probe.sched.yield-under-lock-recoveries", sim.lockStalls)
 		r.countN("sim.switches", sim.switches)
 		for site, n := range sim.siteCounts {
 			r.countN("probe.yield."+site, n)
@@ -284,4 +289,81 @@ func refHistories(r *RunCtx) {
 		r.fail("C20.counter", "Segment.refs", "after the last release the segment holds %d references", got)
 	}
 	r.Sample["ops"] = r.Events
+}
+
+// legacyFileWithBadDocValues is a tiny file in the pre-sections (version 15)
+// layout whose doc-value index entry is too short: Open maps it, parses footer
+// and fields, and then fails with an ordinary error in the doc-value loader -
+// the last of Open's failure paths.
+func legacyFileWithBadDocValues() []byte {
+	var mem []byte
+	mem = append(mem, 0x00, 0x01, 'a')
+	dvOff := uint64(len(mem))
+	mem = append(mem, 0x00, 0x01)
+	mem = append(mem, make([]byte, 16)...)
+	fieldsIdx := uint64(len(mem))
+	mem = binary.BigEndian.AppendUint64(mem, 0)
+	mem = binary.BigEndian.AppendUint64(mem, 1)
+	mem = binary.BigEndian.AppendUint64(mem, 0)
+	mem = binary.BigEndian.AppendUint64(mem, fieldsIdx)
+	mem = binary.BigEndian.AppendUint64(mem, dvOff)
+	mem = binary.BigEndian.AppendUint32(mem, 1024)
+	mem = binary.BigEndian.AppendUint32(mem, 15)
+	mem = binary.BigEndian.AppendUint32(mem, 0)
+	return mem
+}
+
+// openDamagedFiles: every failure path of Open must release the mapping and
+// the descriptor it took (the reference Open created is the only one). Damaged
+// variants of a real file and one hand-built legacy file are opened; only
+// attempts in which Open returns normally are judged (a panic on corrupt input
+// is a robustness matter outside this property).
+func (w *World) openDamagedFiles(mem *SegH) {
+	r := w.r
+	good := r.path("good")
+	if err := mem.Seg.(segment.UnpersistedSegment).Persist(good); err != nil {
+		r.fail("persist-error", "Persist", "%v", err)
+	}
+	data, _ := os.ReadFile(good)
+	variants := map[string][]byte{"empty": {}, "legacy-bad-docvalues": legacyFileWithBadDocValues()}
+	// (Random damage - byte flips, a flipped version number, zeroed offsets - is
+	// deliberately NOT used: Open does not verify the CRC, and garbage lengths
+	// read back from such files make the loaders allocate without bound, a
+	// robustness matter outside this property that would alarm on a tree where
+	// the property holds.)
+	_ = data
+	for _, name := range sortedKeys(variants) {
+		p := r.path("damaged")
+		if err := os.WriteFile(p, variants[name], 0o600); err != nil {
+			r.fail("harness", "openDamaged", "%v", err)
+		}
+		var err error
+		var seg segment.Segment
+		panicked := false
+		func() {
+			defer func() {
+				if rec := recover(); rec != nil {
+					panicked = true
+				}
+			}()
+			seg, err = plugin.Open(p)
+		}()
+		switch {
+		case panicked:
+			r.count("probe.open.damaged-panicked")
+			continue
+		case err == nil:
+			r.count("probe.open.damaged-accepted")
+			func() {
+				defer func() { recover() }()
+				seg.Close()
+			}()
+		default:
+			r.count("probe.open.damaged-rejected")
+		}
+		if m, fds := mappedAndOpen(p); err != nil && (m || fds != 0) {
+			r.fail("C20.open-failure-leak", "Open", "Open of a damaged file (%s) returned %q but left it mapped=%v with %d open descriptors", name, err, m, fds)
+		}
+		r.ev("open damaged %s -> err=%v", name, err != nil)
+	}
 }
